@@ -45,7 +45,7 @@ Lemma start_flags : forall c s, clean s \/ active s ->
   let r := start c s in
   (clean (fst r) \/ active (fst r)) /\
   (clean s -> snd r = false -> active (fst r)) /\
-  (clean s -> snd r = true -> c_progress c = false \/ c_start_guarded c = true -> clean (fst r)).
+  (clean s -> snd r = true -> c_progress c = false \/ start_cleans c = true -> clean (fst r)).
 Proof.
   intros c s Hs. unfold start. destruct (started s) eqn:Es.
   - cbn. split; [assumption|]. split; intros [Hc _]; congruence.
@@ -55,7 +55,7 @@ Proof.
       destruct (refresh c (emit (set_flags s true (S (hooks s)) true) cursor_off)) as [s2 raised].
       cbn [fst] in Hf. destruct Hf as (F1 & F2 & F3). cbn in F1, F2, F3. rewrite Hh in F2.
       destruct raised; cbn [andb].
-      * destruct (c_start_guarded c) eqn:Eg; cbn [fst snd].
+      * destruct (start_cleans c) eqn:Eg; cbn [fst snd].
         -- split; [left; repeat split; cbn; rewrite F2; reflexivity|].
            split; [discriminate|]. intros _ _ _. repeat split; cbn. rewrite F2. reflexivity.
         -- split; [right; repeat split; assumption|]. split; [discriminate|].
@@ -125,9 +125,19 @@ Proof.
   destruct raised; [assumption|]. now apply IH.
 Qed.
 
+(* stdout/stderr are redirected exactly while the display is started -- every history, every fault,
+   restarts included (a second start() installs the proxies again) *)
+Theorem redirected_iff_started : forall c f0 ops,
+  let s := fst (run_ops c (st0 c f0) ops) in redir s = started s.
+Proof.
+  intros c f0 ops. cbv zeta.
+  destruct (run_ops_flags c ops (st0 c f0) (or_introl (conj eq_refl (conj eq_refl eq_refl)))) as [(A & _ & B)|(A & _ & B)];
+    congruence.
+Qed.
+
 (* hooks, redirection and the started flag after a with-block, whatever raised wherever *)
 Theorem block_restores_flags : forall c f0 pre body,
-  c_progress c = false \/ c_start_guarded c = true ->
+  c_progress c = false \/ start_cleans c = true ->
   clean (fst (run_block c f0 pre body)).
 Proof.
   intros c f0 pre body Hg. unfold run_block.
@@ -282,7 +292,9 @@ Definition view_of (c : cfg) (s : st) : bool :=
 
 (* D18: Progress.start() refreshes after pushing the hook, outside any try: a column that raises
    leaves the hook, the redirection and the hidden cursor behind; __exit__ never runs. *)
-Definition d18_cfg (guarded : bool) : cfg := mkCfg true false OEllipsis 20 5 None (Some 0%nat) guarded false false false false false.
+Definition d18_cfg (guarded : bool) : cfg := mkCfg true false OEllipsis 20 5 None (Some 0%nat) guarded false false false false false false false.
+(* the handler narrowed to `except Exception` and a KeyboardInterrupt raised by a column *)
+Definition d18_narrow_cfg (catches_base : bool) : cfg := mkCfg true false OEllipsis 20 5 None (Some 0%nat) true false false false false false catches_base true.
 Lemma d18_asis_refuted :
   let s := fst (run_block (d18_cfg false) (w_lines 1) [] []) in
   snd (run_block (d18_cfg false) (w_lines 1) [] []) = true /\ hooks s = 1%nat /\ redir s = true
@@ -294,9 +306,20 @@ Lemma d18_fixed_ok :
   /\ vis (interp 5 init (out s)) = true.
 Proof. vm_compute. repeat split. Qed.
 
+Lemma d18_narrow_refuted :
+  let s := fst (run_block (d18_narrow_cfg false) (w_lines 1) [] []) in
+  snd (run_block (d18_narrow_cfg false) (w_lines 1) [] []) = true /\ hooks s = 1%nat /\ redir s = true
+  /\ vis (interp 5 init (out s)) = false.
+Proof. vm_compute. repeat split. Qed.
+Lemma d18_base_ok :
+  let s := fst (run_block (d18_narrow_cfg true) (w_lines 1) [] []) in
+  snd (run_block (d18_narrow_cfg true) (w_lines 1) [] []) = true /\ hooks s = 0%nat /\ redir s = false
+  /\ vis (interp 5 init (out s)) = true.
+Proof. vm_compute. repeat split. Qed.
+
 (* D23: Live.stop() forces vertical_overflow="visible" also when transient: a frame taller than the
    page is printed in full and its rows that scrolled off cannot be erased. *)
-Definition d23_cfg (guard room : bool) : cfg := mkCfg false true OEllipsis 20 3 None None true guard false false room false.
+Definition d23_cfg (guard room : bool) : cfg := mkCfg false true OEllipsis 20 3 None None true guard false false room false false false.
 Definition d23_ops : list op := [Print (w_lines 1); Start; Refresh; Stop].
 Definition d23_run (guard room : bool) (n : nat) : st :=
   fst (run_ops (d23_cfg guard room) (st0 (d23_cfg guard room) (w_lines n)) d23_ops).
@@ -313,7 +336,7 @@ Lemma d23_repaired_ok : view_of (d23_cfg true true) (d23_run true true 5) = true
 Proof. vm_compute. reflexivity. Qed.
 
 (* no overflow handling at all in live_render.LiveRender (Progress): taller than the page = remnants *)
-Definition tall_cfg (crop : bool) : cfg := mkCfg true false OEllipsis 20 3 None None true false false false false crop.
+Definition tall_cfg (crop : bool) : cfg := mkCfg true false OEllipsis 20 3 None None true false false false false crop false false.
 Definition tall_run (crop : bool) : st :=
   fst (run_ops (tall_cfg crop) (st0 (tall_cfg crop) (w_lines 5)) [Start; Print (w_lines 1); Update (w_lines 4) true; Print (w_lines 1)]).
 Lemma progress_too_tall_refuted : view_of (tall_cfg false) (tall_run false) = false.
@@ -323,14 +346,14 @@ Lemma progress_too_tall_repaired_ok : view_of (tall_cfg true) (tall_run true) = 
 Proof. vm_compute. reflexivity. Qed.
 
 (* "visible" overflow of a too-tall frame: documented upstream as not clearable *)
-Definition vis_cfg : cfg := mkCfg false false OVisible 20 3 None None true false false false false false.
+Definition vis_cfg : cfg := mkCfg false false OVisible 20 3 None None true false false false false false false false.
 Lemma visible_too_tall_refuted :
   view_of vis_cfg (fst (run_ops vis_cfg (st0 vis_cfg (w_lines 5)) [Start; Refresh; Print (w_lines 1)])) = false.
 Proof. vm_compute. reflexivity. Qed.
 
 (* restart: stop() keeps LiveRender._shape, so the first draw after a second start() erases rows
    above the cursor that belong to the kept frame (or, when transient, to printed lines) *)
-Definition rs_cfg (tr resets : bool) : cfg := mkCfg false tr OEllipsis 20 8 None None true false false resets false false.
+Definition rs_cfg (tr resets : bool) : cfg := mkCfg false tr OEllipsis 20 8 None None true false false resets false false false false.
 Definition rs_ops : list op := [Print (w_lines 3); Start; Refresh; Stop; Start; Refresh].
 Lemma restart_refuted : forall tr,
   view_of (rs_cfg tr false) (fst (run_ops (rs_cfg tr false) (st0 (rs_cfg tr false) (w_lines 2)) rs_ops)) = false.
